@@ -147,7 +147,8 @@ pub fn run_worker<W: World>(args: &WorkerArgs) {
             if !seen_sigs.contains(&v.signature) {
                 seen_sigs.push(v.signature.clone());
                 let before = serde_json::to_value(&case).map(|c| json_size(&c)).unwrap_or(0);
-                let (small, sv, tried) = if args.known_sigs.contains(&v.signature) { (case.clone(), v.clone(), 0) } else { shrink_case::<W>(&args.prop, &case, v) };
+                // no in-process minimisation for known findings, nor when re-locating a crash (a candidate may kill the process)
+                let (small, sv, tried) = if args.known_sigs.contains(&v.signature) || args.journal.is_some() { (case.clone(), v.clone(), 0) } else { shrink_case::<W>(&args.prop, &case, v) };
                 let after = serde_json::to_value(&small).map(|c| json_size(&c)).unwrap_or(0);
                 replay = write_replay::<W>(
                     args,
